@@ -2161,6 +2161,8 @@ class _Project:
         )
 
         self.asset_dg: "networkx.DiGraph[FileId]" = networkx.DiGraph()
+        # Source files whose dependents are being re-parsed right now (see update_dependents)
+        self._refreshing: Set[FileId] = set()
 
         # Text of the files last updated from an editor buffer rather than from disk
         self.buffer_texts: Dict[FileId, str] = {}
@@ -2234,6 +2236,9 @@ class _Project:
             # Pages which looked for this file (e.g. through a :doc: role) when it
             # did not exist yet have to be told that it is there now
             self.update_dependents(path)
+        elif ext in util.SOURCE_FILE_EXTENSIONS:
+            # Pages which show this file verbatim have to show what it holds now
+            self.update_dependents(path, only_changed=True)
 
     def delete(self, fileid: FileId) -> None:
         self.buffer_texts.pop(fileid, None)
@@ -2464,10 +2469,12 @@ class _Project:
             )
             for asset in page.static_assets
         )
-        # Files read while parsing (literalinclude and friends) are dependencies too
+        # Files read while parsing (literalinclude and friends) are dependencies too. Remember
+        # what they held: a source file that changes is re-parsed itself, and so must be the
+        # pages which read it as it was.
         self.asset_dg.add_edges_from(
-            (page.fileid, dependency)
-            for dependency in (page.dependencies.dependencies or {})
+            (page.fileid, dependency, {"hash": file_hash})
+            for dependency, file_hash in (page.dependencies.dependencies or {}).items()
         )
 
         # Report to our backend
@@ -2488,15 +2495,37 @@ class _Project:
             if source in self.asset_dg:
                 self.asset_dg.remove_edges_from(list(self.asset_dg.out_edges(source)))
 
-    def update_dependents(self, fileid: FileId) -> None:
+    def update_dependents(self, fileid: FileId, only_changed: bool = False) -> None:
         """Re-parse the pages which recorded a dependency on a source file that has just been
-        created or deleted. Their own contents are unchanged, so this does not cascade."""
+        created or deleted or, with only_changed, which read it (a literalinclude of a source
+        file) when it held something else than it holds now. Their own contents are
+        unchanged, so this does not cascade."""
         if fileid not in self.asset_dg:
             return
 
-        for page_id in list(self.asset_dg.predecessors(fileid)):
-            if page_id != fileid and self.pages.keys_from_source(page_id):
-                self.update(page_id, self.buffer_texts.get(page_id))
+        current: Optional[str] = None
+        if only_changed:
+            try:
+                current = hashlib.blake2b(
+                    self.config.get_full_path(fileid).read_bytes()
+                ).hexdigest()
+            except OSError:
+                pass
+
+        self._refreshing.add(fileid)
+        try:
+            for page_id in list(self.asset_dg.predecessors(fileid)):
+                if only_changed:
+                    seen = self.asset_dg.edges[page_id, fileid].get("hash", current)
+                    if seen == current:
+                        continue
+                if (
+                    page_id not in self._refreshing
+                    and self.pages.keys_from_source(page_id)
+                ):
+                    self.update(page_id, self.buffer_texts.get(page_id))
+        finally:
+            self._refreshing.discard(fileid)
 
     def update_asset(self, fileid: FileId) -> None:
         if fileid.name == "facets.toml":
